@@ -52,6 +52,14 @@ def build_call(spec):
         def f():
             return norm(p.get_date_data(spec["s"])["date_obj"])
         return f
+    if api == "tuple":
+        from dateparser.date import DateDataParser
+        st = dict(spec["settings"]) if spec.get("settings") is not None else None
+        p = DateDataParser(languages=spec.get("languages"), settings=st)
+
+        def f():
+            return norm(p.get_date_tuple(spec["s"]).date_obj)
+        return f
     if api == "jalali":
         from dateparser.calendars.jalali import JalaliCalendar
 
